@@ -468,7 +468,7 @@ pub fn run(out: &mut Out, tier: &str, rng: &mut Rng) {
     let offsets: &[u64] = if thorough { &[0, 1, 2, 3, 5, 8, 10, 12, 15, 20, 25, 30, 40, 60, 100, 250] } else { &[0, 7, 30] };
     let mut n = 0;
     for &o in offsets {
-        for clients in if thorough { vec![0usize, 1, 3] } else { vec![(o % 3) as usize] } {
+        for clients in if thorough { vec![0usize, 1, 3] } else { vec![if o == 0 { 0usize } else { 1 + (o % 2) as usize }] } {
             e2e_scenario(out, n, o, clients, n % 2 == 1);
             n += 1;
         }
